@@ -129,20 +129,23 @@ def check_meta(pid, tier, seed, replay):
         ls = [re.sub(r"^(CASE|OBS) (\S+)", lambda mm: "%s %s%s" % (mm.group(1), tag, mm.group(2)), l) for l in ls]
         streams.append((tag, name, build, env, ls))
 
+    scale, src_changed, src_hit = vcheck.case_scale(pid, cfg, tier)
+    if src_changed:
+        log.append("source files changed since sources.lock: %s; quick case count x%d" % (", ".join(src_changed[:8]), scale))
     jobs = []
     for comp in comps:
         name = comp_name(comp)
         d, exe, exe_rel = built[name]
         if not (d and exe):
             continue
-        n = comp.get("quick_cases", 300) if tier == "quick" else comp.get("thorough_cases", 20000)
+        n = (comp.get("quick_cases", 300) * scale) if tier == "quick" else comp.get("thorough_cases", 20000)
         modes = comp.get("modes") or cfg.get("modes") or [("plain", {})]
         builds = [("debug", exe)] + ([("release", exe_rel)] if exe_rel else [])
         per_mode = max(1, n // (len(modes) * len(builds)))
         off = 0
         for bname, e in builds:
             for mname, env in modes:
-                nchunks = max(1, min(4, per_mode // 50))
+                nchunks = max(1, min(4 * scale, per_mode // 50))
                 per = (per_mode + nchunks - 1) // nchunks
                 for k in range(nchunks):
                     jobs.append((name, bname, mname, env, e, off + k * per, per))
@@ -294,6 +297,9 @@ def check_meta(pid, tier, seed, replay):
             "builds": sorted({w[1] for w in where.values()}),
             "modes": sorted({",".join("%s=%s" % kv for kv in sorted(w[2].items())) for w in where.values()}),
             "corpus_files": len(glob.glob(os.path.join(VERIF, "corpus", pid, "*.case"))),
+            "source_changed_since_lock": src_changed,
+            "source_changed_in_anchors": src_hit,
+            "case_count_factor": scale,
             "log": log[-12:],
         },
         "assumptions": cfg.get("assumptions", []),
